@@ -22,13 +22,15 @@ func (i *kvIndex) Get(key string) interface{} {
 }
 
 func (i *kvIndex) UpdateIndex(oplog ipfslog.Log, _ []ipfslog.Entry) error {
+	// read the log under the lock: with two concurrent updates, the one that read the
+	// log first must not apply its older reading last
+	i.muIndex.Lock()
+	defer i.muIndex.Unlock()
+
 	entries := oplog.Values().Slice()
 	size := len(entries)
 
 	handled := map[string]struct{}{}
-
-	i.muIndex.Lock()
-	defer i.muIndex.Unlock()
 
 	for idx := range entries {
 		item, err := operation.ParseOperation(entries[size-idx-1])
